@@ -13,7 +13,8 @@
 //	pb  hash1 salt1 out                         PBKDF2-HMAC-SHA512 x100000 oracle entry
 //	x   id mode regpw pw salt1 salt2 g p b srpB random | refV refB implClass implA implM1 refVerdict expectVerdict tags
 //	r   id mode pw srpB mpflag salt1 salt2 g P random   | implClass implA implM1 expectClass tags
-//	t   id mode pw apkind srpB srpid salt1 salt2 g P b  | implClass implSrpid implA implM1 refVerdict expectClass tags
+//	t   id mode pw apkind srpB srpid salt1 salt2 g P b regpw | implClass implSrpid implA implM1 refVerdict expectClass expectVerdict tags
+//	    (regpw = the EXACT byte string whose verifier the server holds; pw = what is typed into the exported wrapper)
 //
 // mode: calc = the model computes every modexp itself (small groups), orac = it uses the me table.
 package main
@@ -568,11 +569,15 @@ func rawCase(id, mode, pw string, srpB []byte, mp *srp.ModPow, random []byte, ta
 // telegram.GetInputCheckPassword; the client secret is drawn inside, so only the class, the srp_id and
 // the reference server's verdict are observable
 func exportedCase(id string, g group, gval int32, pw, apkind string, r *vc.Rng) *outCase {
+	return exportedCaseReg(id, g, gval, pw, pw, apkind, "exported-"+apkind, r)
+}
+
+// reg: the exact string registered with the server ("" = an unrelated password); pw: the string typed
+func exportedCaseReg(id string, g group, gval int32, reg, pw, apkind, tag string, r *vc.Rng) *outCase {
 	oc := &outCase{}
 	rc := newRec()
 	s1, s2 := randSalt(r), randSalt(r)
 	gz := big.NewInt(int64(gval))
-	reg := pw
 	if reg == "" {
 		reg = "some password"
 	}
@@ -608,15 +613,28 @@ func exportedCase(id string, g group, gval int32, pw, apkind string, r *vc.Rng) 
 			verdict = "rej"
 		}
 	}
+	expectVerdict := "na"
+	if expect == "srp" {
+		expectVerdict = "acc"
+		if pw != reg {
+			v2 := register(nil, []byte(pw), s1, s2, gz, g.p)
+			if v2.Cmp(v) != 0 {
+				expectVerdict = "rej"
+			}
+		}
+	}
 	oc.stat("kind:t")
-	oc.stat("tag:exported-" + apkind)
+	oc.stat("tag:" + tag)
 	oc.lines = append(oc.lines, rc.pb...)
 	oc.lines = append(oc.lines, rc.me...)
 	oc.lines = append(oc.lines, strings.Join([]string{"t", id, g.mode, vc.HexS(pw), apkind, vc.Hex(srpB), zhex(big.NewInt(srpid)),
-		vc.Hex(s1), vc.Hex(s2), zhex(gz), vc.Hex(g.P), zhex(sv.b),
-		class, zhex(big.NewInt(gotID)), vc.Hex(A), vc.Hex(M1), verdict, expect, "exported-" + apkind}, "\t"))
+		vc.Hex(s1), vc.Hex(s2), zhex(gz), vc.Hex(g.P), zhex(sv.b), vc.HexS(reg),
+		class, zhex(big.NewInt(gotID)), vc.Hex(A), vc.Hex(M1), verdict, expect, expectVerdict, tag}, "\t"))
 	return oc
 }
+
+// white space that strings.TrimSpace / unicode.IsSpace would remove: none of it may be touched
+var whiteSpaces = []string{" ", "\t", "\r", "\n", "\r\n", "\u00a0", "\u2003", "\u0085", "\u3000", "\v", "\f", "  "}
 
 type job func(r *vc.Rng) *outCase
 
@@ -848,6 +866,42 @@ func genAll(tier string) []job {
 			cid := id()
 			add(func(r *vc.Rng) *outCase { return exportedCase(cid, real, 3, randPassword(r), k, r) })
 		}
+		// passwords with white space at the ends, through the exported wrapper: the exact byte string counts.
+		//  right: the account's password itself starts/ends with white space -> must be accepted;
+		//  near-miss: the typed string differs from the registered one only by such white space -> must be rejected;
+		//  only white space: a password, NOT the "no password" answer.
+		for wi, ws := range whiteSpaces {
+			if rep > 0 && (wi+rep)%4 != 0 {
+				continue
+			}
+			ws := ws
+			k1, k2, k3, k4, k5 := id(), id(), id(), id(), id()
+			core := func(r *vc.Rng) string {
+				if r.Intn(3) == 0 {
+					return "hunter2"
+				}
+				return strings.TrimSpace(randPassword(r)) + "x"
+			}
+			add(func(r *vc.Rng) *outCase {
+				c := core(r)
+				pw := []string{c + ws, ws + c, ws + c + ws}[r.Intn(3)]
+				return exportedCaseReg(k1, real, 3, pw, pw, "mp", "exported-ws-right", r)
+			})
+			add(func(r *vc.Rng) *outCase { // registered without, typed with
+				c := core(r)
+				pw := []string{c + ws, ws + c, ws + c + ws}[r.Intn(3)]
+				return exportedCaseReg(k2, real, 3, c, pw, "mp", "exported-ws-typed-extra", r)
+			})
+			add(func(r *vc.Rng) *outCase { // registered with, typed without
+				c := core(r)
+				reg := []string{c + ws, ws + c, ws + c + ws}[r.Intn(3)]
+				return exportedCaseReg(k3, real, 3, reg, c, "mp", "exported-ws-typed-trimmed", r)
+			})
+			add(func(r *vc.Rng) *outCase { return exportedCaseReg(k4, real, 3, ws, ws, "mp", "exported-ws-only", r) })
+			add(func(r *vc.Rng) *outCase {
+				return exportedCaseReg(k5, real, 3, ws, ws, "badB", "exported-ws-only-badB", r)
+			})
+		}
 		c1, c2, c3 := id(), id(), id()
 		add(func(r *vc.Rng) *outCase { return exportedCase(c1, real, 3, "", "mp", r) })
 		add(func(r *vc.Rng) *outCase { return exportedCase(c2, real, 3, "", "badB", r) })
@@ -899,7 +953,7 @@ func cmdGen(tier, path string) {
 
 // one x regpw pw s1 s2 g p b srpB random     -> class A M1 verdict
 // one r pw srpB mpflag s1 s2 g P random       -> class A M1
-// one t pw apkind srpB srpid s1 s2 g P b      -> class srpid A M1 verdict
+// one t pw apkind srpB srpid s1 s2 g P b regpw -> class srpid A M1 verdict
 func cmdOne(a []string) {
 	switch a[0] {
 	case "x":
@@ -929,10 +983,7 @@ func cmdOne(a []string) {
 		pw, apkind, srpB, srpid := string(vc.UnHex(a[1])), a[2], vc.UnHex(a[3]), unzhex(a[4]).Int64()
 		s1, s2, g, P, b := vc.UnHex(a[5]), vc.UnHex(a[6]), unzhex(a[7]), vc.UnHex(a[8]), unzhex(a[9])
 		ap := buildAP(apkind, srpB, srpid, s1, s2, int32(g.Int64()), P)
-		reg := pw
-		if reg == "" {
-			reg = "some password"
-		}
+		reg := string(vc.UnHex(a[10]))
 		sv := &refServer{s1, s2, g, num(P), register(nil, []byte(reg), s1, s2, g, num(P)), b}
 		class, gotID, A, M1 := implExported(pw, ap)
 		verdict := "na"
